@@ -79,6 +79,7 @@ def run(chk):
     if not rule_bindings_eval(chk):
         rule_peel(chk)
     rule_inline_constants(chk)
+    rule_per_primitive_param(chk)
     import c06
     c06.rule_group_index_eval(chk, prefix="C18.groups")     # both exporters file a binding under the group it was registered for, whatever the order
     import c02
@@ -99,6 +100,79 @@ def run(chk):
             chk.ob("C18.tables/descriptor/%s" % k, a == b, "%s -> %s on every target" % (k, a) if a == b else
                    "descriptor kind of %s differs between targets: HLSL %s, MSL %s" % (k, a, b), "hlsl/msl analyse_bindings", sample={"object": k, "hlsl": a, "msl": b})
         chk.floor("C18.floor/descriptor-table", len(tabs["hlsl"]), 20, "descriptor table entries")
+def rule_per_primitive_param(chk):
+    """The per-primitive decoration of pixel-stage inputs (Vulkan only) is an attribute and nothing else: the HLSL
+    generate_function_param walked for a parameter with a user semantic - scalar, array, array of arrays - as an ordinary
+    parameter, as a pixel-entry parameter whose semantic is not per-primitive, and as one whose semantic is. Type,
+    declarator shape and semantic must be the same in all three; only the attribute list may differ."""
+    import interp as I
+    import bindmodel as BM
+    f = chk.facts
+    gp = f.fn("generate_function_param", "rssl_hlsl")
+    if not gp:
+        chk.note("C18.per-primitive: hlsl generate_function_param not found; not decided")
+        return
+    if len(gp.get("params") or [0, 0, 0]) != 3:
+        chk.note("C18.per-primitive: generate_function_param no longer takes (param, context, for_pixel_entry); not decided")
+        return
+    bm = BM.BindModel(f)
+    opt = BM.opt
+    sc = bm.scalar()
+    types = (("a scalar", sc), ("an array", bm.array(sc, 2)), ("an array of arrays", bm.array(bm.array(sc, 3), 2)))
+
+    def strip(v):
+        if isinstance(v, I.Enum):
+            return (v.adt, v.variant, tuple((k, strip(x)) for k, x in sorted(v.fields.items())))
+        if isinstance(v, (list, tuple)):
+            if v and all(isinstance(x, I.Enum) and x.adt == "Attribute" for x in v):
+                return ()
+            return tuple(strip(x) for x in v)
+        return repr(v)
+
+    def attrs(v):
+        if isinstance(v, I.Enum):
+            return sum((attrs(x) for x in v.fields.values()), [])
+        if isinstance(v, (list, tuple)):
+            return [x for x in v if isinstance(x, I.Enum) and x.adt == "Attribute"] + sum((attrs(x) for x in v if not (isinstance(x, I.Enum) and x.adt == "Attribute")), [])
+        return []
+    n = 0
+    bad = None
+    for tname, t in types:
+        seen = {}
+        for pix, inset in ((False, False), (True, False), (True, True)):
+            ext = dict(bm.externs())
+            ext["get_variable_name"] = lambda a: I.Enum("Result", "Ok", {"0": "i_corner"})
+            ip = I.Interp(f, max_depth=10, extern=ext)
+            hs = I.HSet()
+            if inset:
+                hs.add("CORNER")
+            p = I.Enum("FunctionParam", None, {
+                "id": I.Enum("VariableId", None, {"0": 0}), "param_type": I.Enum("ParamType", None, {"type_id": BM.tid(t), "input_modifier": I.Enum("InputModifier", "In")}),
+                "interpolation_modifier": opt(None), "precise": False, "semantic": opt(I.Enum("Semantic", "User", {"0": "CORNER"})), "default_expr": opt(None)})
+            ctx = I.Enum("GenerateContext", None, {"module": I.Enum("Module", None, {"type_registry": I.Opaque("type registry")}), "per_primitive_semantics": hs})
+            try:
+                r = ip.apply(gp, [p, ctx, pix])
+            except I.Unknown as e:
+                if "panicking" in str(e):
+                    bad = bad or "a pixel-stage input that is %s%s aborts the exporter (%s)" % (tname, " with a per-primitive semantic" if inset else "", str(e)[:80])
+                    continue
+                chk.note("C18.per-primitive: generate_function_param is not readable (%s); not decided" % str(e)[:80])
+                return
+            if not (isinstance(r, I.Enum) and r.variant == "Ok"):
+                bad = bad or "a pixel-stage input that is %s%s is refused" % (tname, " with a per-primitive semantic" if inset else "")
+                continue
+            n += 1
+            seen[(pix, inset)] = (strip(r.fields["0"]), len(attrs(r.fields["0"])))
+        base = seen.get((False, False))
+        for k, v in seen.items():
+            if base is not None and v[0] != base[0] and bad is None:
+                bad = "a parameter that is %s is written differently (beyond attributes) when it is a pixel-stage input%s: the Vulkan flavour differs from the DirectX one in the parameter's type" % (
+                    tname, " with a per-primitive semantic" if k[1] else "")
+            if base is not None and not k[1] and v[1] != base[1] and bad is None:
+                bad = "a pixel-stage input that is %s gets an attribute although its semantic is not per-primitive" % tname
+    chk.ob("C18.per-primitive/declarator", bad is None, bad or "%d parameters: the per-primitive decoration only adds an attribute" % n, where(gp), sample={"parameters": n})
+
+
 def rule_front_eval(chk, comp):
     """compile() walked with scripted stages for every target: the same front-end stages run in the same order whatever
     the target is (with and without layout validation, in pipeline and no-pipeline mode). True when readable."""
